@@ -44,11 +44,11 @@ type POp struct {
 }
 
 type Case struct {
-	Elem  int     `json:"elem"` // 0: int members (one of them 0), 1: string members
+	Elem  int     `json:"elem"` // element type, index into elemNames (types_test.go): 0 int (one member 0), 1 plain strings, 2.. see there
 	A     Operand `json:"a"`
 	B     Operand `json:"b"`
 	Alias bool    `json:"alias"` // B is the very same object as A (honoured for union/intersect/setdiff/symdiff/cartesian only)
-	Op    string  `json:"op"`    // union intersect setdiff symdiff addset removeset clone cartesian range string
+	Op    string  `json:"op"`    // union intersect setdiff symdiff addset removeset clone cartesian cartesian2 nested range string
 	K     int     `json:"k"`     // for op "range": stop at the k-th call (0 = never)
 	Post  []POp   `json:"post"`
 }
@@ -59,21 +59,32 @@ const (
 
 const rule = "case = two operands, each {maps.Set | sync2.Set} x {empty | NewSetFromSlice/Keys/Values(input with duplicates)} x construction " +
 	"history of Add/Remove/Has/Len/Slice/Range(stop at k)/String over member codes 0..7 (every step checked against a bit-set model: Add/Remove " +
-	"results, Has, Len, Slice and Range enumerate each member exactly once, Range makes exactly min(k,n) calls, String is '{' members '}'); no " +
+	"results, Has, Len, Slice and Range enumerate each member exactly once, Range makes exactly min(k,n) calls, String is exactly '{' + one fmt.Sprint " +
+	"rendering per member, in any order, separated by single spaces + '}' — matched as a multiset by search, because renderings may be empty, contain " +
+	"spaces/brackets/braces or coincide for distinct members); no " +
 	"observation is made between history and operation, so the sync2.Map layout the history produced (clean read map, amended+dirty, nil entries, " +
 	"expunged entries, promoted) is the one the operation runs on; then ONE operation from Union/Intersect/SetDiff/SymDiff/AddSet/RemoveSet/Clone/" +
-	"CartesianProduct/Range/String (B may be the same object as A for the pure ones); result, return value and both operands are compared with " +
-	"the model (Has over all codes, Len, Slice, Range); then generated mutations of A/B/result and a fixed detachment probe (mutate result => " +
+	"CartesianProduct/Range/String (B may be the same object as A for the pure ones), 'nested' (A.Range whose callback uses the read-only methods " +
+	"Has/Len/Slice/String/Range of A and Has of B) or 'cartesian2' (CartesianProduct of A with a Set[string] of awkward strings: two element types; " +
+	"non-trivial there = both operands have >= 2 members); result, return value and both operands are compared with " +
+	"the model (Has over all codes, Len, Slice — whose returned slice is then overwritten by the caller —, Range); then generated mutations of " +
+	"A/B/result and a fixed detachment probe (mutate result => " +
 	"operands unchanged, mutate operands => result unchanged), all three re-read after each. non-trivial = A∩B, A\\B and B\\A all non-empty at the " +
 	"time of the operation. Labels report the real internal layout of every sync2 operand at the time of the operation (read by reflection, labels only)"
 
+// kit maps member codes -1..maxCode+1 to values of the element type. Two codes 0..maxCode may denote the
+// same member (0.0 and -0.0; every value of a zero-size type): the model works on canonical codes
+// (un(mk(code)), the lowest code of the member). Codes -1 and maxCode+1 are never inserted.
 type kit[T comparable] struct {
-	mk func(int) T
-	un func(T) int // -1000 when the value is no member code
+	name      string
+	mk        func(int) T
+	un        func(T) int // canonical code; -1000 when the value is no member code
+	noOutside bool        // the type has no value besides the member codes (zero-size type): no "never inserted" probes
 }
 
 var intKit = kit[int]{
-	mk: func(i int) int { return i*5 - 10 }, // code 2 is the zero value
+	name: "int",
+	mk:   func(i int) int { return i*5 - 10 }, // code 2 is the zero value
 	un: func(v int) int {
 		if (v+10)%5 != 0 {
 			return -1000
@@ -83,7 +94,8 @@ var intKit = kit[int]{
 }
 
 var strKit = kit[string]{
-	mk: func(i int) string { return "k" + strconv.Itoa(i) },
+	name: "string",
+	mk:   func(i int) string { return "k" + strconv.Itoa(i) },
 	un: func(s string) int {
 		if len(s) < 2 || s[0] != 'k' {
 			return -1000
@@ -96,12 +108,7 @@ var strKit = kit[string]{
 	},
 }
 
-func Run(c Case) pbt.Outcome {
-	if c.Elem == 1 {
-		return run(c, strKit)
-	}
-	return run(c, intKit)
-}
+func Run(c Case) pbt.Outcome { return runElem(c) }
 
 func members(m uint32) []int {
 	r := make([]int, 0, bits.OnesCount32(m))
@@ -192,47 +199,109 @@ func (r runner[T]) show(code int) string {
 	if code < -1 || code > maxCode+1 {
 		return "<a value that was never inserted>"
 	}
-	return fmt.Sprintf("code %d (%v)", code, r.k.mk(code))
+	return fmt.Sprintf("code %d (%#v)", code, r.k.mk(code))
 }
 
+// canon returns the canonical code of the member that code denotes.
+func (r runner[T]) canon(code int) int { return r.k.un(r.k.mk(code)) }
+
+// at returns the value of a (normalised) code and the model bit of its member.
+func (r runner[T]) at(code int) (T, uint32) {
+	v := r.k.mk(code)
+	return v, 1 << uint(r.k.un(v))
+}
+
+// checkString: String() must be '{' + the members, each formatted as fmt.Sprint does, each exactly once, in
+// any order, separated by single spaces + '}'. Member renderings may be empty, contain spaces, brackets and
+// braces, and distinct members may render alike, so the body is matched against the multiset of renderings by
+// a search over (members used so far, position) rather than by splitting at spaces. A member that has two
+// equal-comparing values with different renderings (0.0 and -0.0) may appear as either.
 func (r runner[T]) checkString(what string, s sets.Set[T], m uint32) string {
 	got := s.String()
-	bad := func() string {
-		return fmt.Sprintf("%s: String() = %q, want '{' + the members %v in some order, space separated + '}'", what, got, r.wantStrings(m))
+	alts := r.wantStrings(m)
+	if len(got) >= 2 && got[0] == '{' && got[len(got)-1] == '}' && matchBody(got[1:len(got)-1], alts) {
+		return ""
 	}
-	if len(got) < 2 || got[0] != '{' || got[len(got)-1] != '}' {
-		return bad()
-	}
-	var parts []string
-	if inner := got[1 : len(got)-1]; inner != "" {
-		parts = strings.Split(inner, " ")
-	}
-	sort.Strings(parts)
-	want := r.wantStrings(m)
-	if len(parts) != len(want) {
-		return bad()
-	}
-	for i := range parts {
-		if parts[i] != want[i] {
-			return bad()
-		}
-	}
-	return ""
+	return fmt.Sprintf("%s: String() = %q, want '{' + the %d members formatted with fmt.Sprint, each once, in some order, separated by single spaces + '}'; member renderings: %q",
+		what, got, len(alts), alts)
 }
 
-func (r runner[T]) wantStrings(m uint32) []string {
-	var w []string
-	for _, v := range members(m) {
-		w = append(w, fmt.Sprint(r.k.mk(v)))
+// matchBody reports whether body is a permutation of one rendering per member joined by single spaces.
+func matchBody(body string, alts [][]string) bool {
+	n := len(alts)
+	if n == 0 {
+		return body == ""
 	}
-	sort.Strings(w)
+	type state struct {
+		used uint32
+		pos  int
+	}
+	dead := map[state]bool{}
+	full := uint32(1)<<uint(n) - 1
+	var rec func(used uint32, pos int) bool
+	rec = func(used uint32, pos int) bool {
+		if used == full {
+			return pos == len(body)
+		}
+		st := state{used, pos}
+		if dead[st] {
+			return false
+		}
+		if used != 0 { // separator before every member but the first
+			if pos >= len(body) || body[pos] != ' ' {
+				dead[st] = true
+				return false
+			}
+			pos++
+		}
+		for i := 0; i < n; i++ {
+			if used&(1<<uint(i)) != 0 {
+				continue
+			}
+			for _, a := range alts[i] {
+				if strings.HasPrefix(body[pos:], a) && rec(used|1<<uint(i), pos+len(a)) {
+					return true
+				}
+			}
+		}
+		dead[st] = true
+		return false
+	}
+	return rec(0, 0)
+}
+
+// wantStrings returns, per member, the acceptable renderings (more than one only for members with several
+// equal-comparing values).
+func (r runner[T]) wantStrings(m uint32) [][]string {
+	var w [][]string
+	for _, v := range members(m) {
+		var alt []string
+		for c := 0; c <= maxCode; c++ {
+			if r.canon(c) != v {
+				continue
+			}
+			s := fmt.Sprint(r.k.mk(c))
+			dup := false
+			for _, a := range alt {
+				dup = dup || a == s
+			}
+			if !dup {
+				alt = append(alt, s)
+			}
+		}
+		w = append(w, alt)
+	}
 	return w
 }
 
 // verify re-reads a set completely and compares it with its model.
 func (r runner[T]) verify(what string, s sets.Set[T], m uint32) string {
 	for v := -1; v <= maxCode+1; v++ {
-		want := v >= 0 && v <= maxCode && m&(1<<uint(v)) != 0
+		if (v < 0 || v > maxCode) && r.k.noOutside {
+			continue
+		}
+		c := r.canon(v)
+		want := c >= 0 && c <= maxCode && m&(1<<uint(c)) != 0
 		if got := s.Has(r.k.mk(v)); got != want {
 			return fmt.Sprintf("%s: Has(%s) = %v, want %v (members should be %v)", what, r.show(v), got, want, members(m))
 		}
@@ -240,8 +309,16 @@ func (r runner[T]) verify(what string, s sets.Set[T], m uint32) string {
 	if got, want := s.Len(), bits.OnesCount32(m); got != want {
 		return fmt.Sprintf("%s: Len() = %d, want %d (members should be %v)", what, got, want, members(m))
 	}
-	if got := r.codes(s.Slice()); !eqInts(got, members(m)) {
+	sl := s.Slice()
+	if got := r.codes(sl); !eqInts(got, members(m)) {
 		return fmt.Sprintf("%s: Slice() has member codes %v, want each of %v exactly once", what, got, members(m))
+	}
+	// Slice returns a NEW slice: the caller may do with it what it likes (everything after this is read again)
+	for i := range sl {
+		sl[i] = r.k.mk(maxCode + 1)
+	}
+	if cap(sl) > len(sl) {
+		_ = append(sl, r.k.mk(-1))
 	}
 	return r.checkRange(what, s, m, 0)
 }
@@ -251,9 +328,9 @@ func (r runner[T]) build(name string, o Operand) (*operand[T], string) {
 	var init []T
 	var mask uint32
 	for _, v := range o.Init {
-		v = norm(v)
-		init = append(init, r.k.mk(v))
-		mask |= 1 << uint(v)
+		x, bit := r.at(norm(v))
+		init = append(init, x)
+		mask |= bit
 	}
 	isSync := o.Impl == "sync2"
 	switch o.Ctor {
@@ -314,25 +391,28 @@ func (r runner[T]) hist(o *operand[T], i int, h HOp) string {
 	switch h.K {
 	case "add":
 		v := norm(h.V)
-		want := m&(1<<uint(v)) == 0
-		if got := o.s.Add(r.k.mk(v)); got != want {
+		x, bit := r.at(v)
+		want := m&bit == 0
+		if got := o.s.Add(x); got != want {
 			return fmt.Sprintf("%s: Add(%s) returned %v, want %v (members before: %v)", what, r.show(v), got, want, members(m))
 		}
-		*o.m |= 1 << uint(v)
+		*o.m |= bit
 	case "rem":
 		v := norm(h.V)
-		want := m&(1<<uint(v)) != 0
-		if got := o.s.Remove(r.k.mk(v)); got != want {
+		x, bit := r.at(v)
+		want := m&bit != 0
+		if got := o.s.Remove(x); got != want {
 			return fmt.Sprintf("%s: Remove(%s) returned %v, want %v (members before: %v)", what, r.show(v), got, want, members(m))
 		}
 		if want {
 			o.tr.removed = true
 		}
-		*o.m &^= 1 << uint(v)
+		*o.m &^= bit
 	case "has":
 		v := norm(h.V)
-		want := m&(1<<uint(v)) != 0
-		if got := o.s.Has(r.k.mk(v)); got != want {
+		x, bit := r.at(v)
+		want := m&bit != 0
+		if got := o.s.Has(x); got != want {
 			return fmt.Sprintf("%s: Has(%s) = %v, want %v (members: %v)", what, r.show(v), got, want, members(m))
 		}
 	case "len":
@@ -355,9 +435,91 @@ func (r runner[T]) hist(o *operand[T], i int, h HOp) string {
 	return ""
 }
 
+// checkProduct: CartesianProduct(A,B) must be exactly the |A|*|B| distinct pairs of AxB.
+func checkProduct[TA, TB comparable](prod []sets.Product[TA, TB], ra runner[TA], rb runner[TB], ma, mb uint32, what string) string {
+	na, nb := bits.OnesCount32(ma), bits.OnesCount32(mb)
+	var seen [maxCode + 1][maxCode + 1]bool
+	show := func() string {
+		var sb strings.Builder
+		for _, p := range prod {
+			fmt.Fprintf(&sb, "(%d,%d)", ra.k.un(p.A), rb.k.un(p.B))
+		}
+		return sb.String()
+	}
+	if len(prod) != na*nb {
+		return fmt.Sprintf("CartesianProduct(A,B) has %d pairs, want |A|*|B| = %d; pairs (as codes) %s; %s", len(prod), na*nb, show(), what)
+	}
+	for _, p := range prod {
+		x, y := ra.k.un(p.A), rb.k.un(p.B)
+		if x < 0 || x > maxCode || y < 0 || y > maxCode || ma&(1<<uint(x)) == 0 || mb&(1<<uint(y)) == 0 {
+			return fmt.Sprintf("CartesianProduct(A,B) contains the pair (%#v,%#v), which is not in AxB; pairs (as codes) %s; %s", p.A, p.B, show(), what)
+		} else if seen[x][y] {
+			return fmt.Sprintf("CartesianProduct(A,B) contains the pair of codes (%d,%d) twice; pairs %s; %s", x, y, show(), what)
+		}
+		seen[x][y] = true
+	}
+	return ""
+}
+
+// nested: read-only methods used from inside a Range callback (the documentation forbids only methods that
+// modify the set there): every visited member is a member according to Has of the same set, Has of B answers
+// by B's model, and at the first call Len, Slice, String and a complete inner Range of the same set agree
+// with the model; the outer Range still visits every member exactly once.
+func (r runner[T]) nested(a, b *operand[T], what string) string {
+	ma, mb := *a.m, *b.m
+	n := bits.OnesCount32(ma)
+	var msg string
+	var seen []int
+	fail := func(f string, args ...any) bool {
+		if msg == "" {
+			msg = fmt.Sprintf("inside the callback of A.Range (call %d): ", len(seen)) + fmt.Sprintf(f, args...) + "; " + what
+		}
+		return false
+	}
+	a.s.Range(func(x T) bool {
+		v := r.k.un(x)
+		seen = append(seen, v)
+		if v < 0 || v > maxCode || ma&(1<<uint(v)) == 0 {
+			return fail("visited %#v, which is not a member", x)
+		}
+		if !a.s.Has(x) {
+			return fail("A.Has(%s) = false for the member being visited", r.show(v))
+		}
+		if got, want := b.s.Has(x), mb&(1<<uint(v)) != 0; got != want {
+			return fail("B.Has(%s) = %v, want %v", r.show(v), got, want)
+		}
+		if len(seen) == 1 {
+			if got := a.s.Len(); got != n {
+				return fail("A.Len() = %d, want %d", got, n)
+			}
+			if got := r.codes(a.s.Slice()); !eqInts(got, members(ma)) {
+				return fail("A.Slice() has member codes %v, want %v", got, members(ma))
+			}
+			if m := r.checkString("A", a.s, ma); m != "" {
+				return fail("%s", m)
+			}
+			if m := r.checkRange("inner A.Range", a.s, ma, 0); m != "" {
+				return fail("%s", m)
+			}
+			if m := r.checkRange("inner A.Range", a.s, ma, 1); m != "" {
+				return fail("%s", m)
+			}
+		}
+		return true
+	})
+	if msg != "" {
+		return msg
+	}
+	sort.Ints(seen)
+	if !eqInts(seen, members(ma)) {
+		return fmt.Sprintf("A.Range with a callback that calls read-only methods of A and B visited member codes %v, want each of %v exactly once; %s", seen, members(ma), what)
+	}
+	return ""
+}
+
 func aliasable(op string) bool {
 	switch op {
-	case "union", "intersect", "setdiff", "symdiff", "cartesian":
+	case "union", "intersect", "setdiff", "symdiff", "cartesian", "nested":
 		return true
 	}
 	return false
@@ -369,6 +531,9 @@ func run[T comparable](c Case, k kit[T]) pbt.Outcome {
 	a, msg := r.build("A", c.A)
 	if msg != "" {
 		return pbt.Fail("%s", msg)
+	}
+	if c.Op == "cartesian2" {
+		return runCartesian2(c, r, a)
 	}
 	b := a
 	alias := c.Alias && aliasable(c.Op)
@@ -491,32 +656,9 @@ func run[T comparable](c Case, k kit[T]) pbt.Outcome {
 		}
 		*a.m = ma &^ mb
 	case "cartesian":
-		prod := sets.CartesianProduct(a.s, b.s)
-		na, nb := bits.OnesCount32(ma), bits.OnesCount32(mb)
-		var seen [maxCode + 1][maxCode + 1]bool
-		show := func() string {
-			var sb strings.Builder
-			for _, p := range prod {
-				fmt.Fprintf(&sb, "(%d,%d)", r.k.un(p.A), r.k.un(p.B))
-			}
-			return sb.String()
-		}
-		if len(prod) != na*nb {
-			msg = fmt.Sprintf("CartesianProduct(A,B) has %d pairs, want |A|*|B| = %d; pairs (as codes) %s; %s", len(prod), na*nb, show(), what)
-		}
-		for _, p := range prod {
-			if msg != "" {
-				break
-			}
-			x, y := r.k.un(p.A), r.k.un(p.B)
-			if x < 0 || x > maxCode || y < 0 || y > maxCode || ma&(1<<uint(x)) == 0 || mb&(1<<uint(y)) == 0 {
-				msg = fmt.Sprintf("CartesianProduct(A,B) contains the pair (%v,%v), which is not in AxB; pairs (as codes) %s; %s", p.A, p.B, show(), what)
-			} else if seen[x][y] {
-				msg = fmt.Sprintf("CartesianProduct(A,B) contains the pair of codes (%d,%d) twice; pairs %s; %s", x, y, show(), what)
-			} else {
-				seen[x][y] = true
-			}
-		}
+		msg = checkProduct(sets.CartesianProduct(a.s, b.s), r, r, ma, mb, what)
+	case "nested":
+		msg = r.nested(a, b, what)
 	case "range":
 		kk := c.K
 		if kk < 0 {
@@ -565,16 +707,16 @@ func run[T comparable](c Case, k kit[T]) pbt.Outcome {
 		return pbt.Fail("%s", m)
 	}
 	mutate := func(t target, kind string, v int, why string) string {
-		bit := uint32(1) << uint(v)
+		x, bit := r.at(v)
 		if kind == "add" {
 			want := *t.m&bit == 0
-			if got := t.s.Add(r.k.mk(v)); got != want {
+			if got := t.s.Add(x); got != want {
 				return fmt.Sprintf("%s: Add(%s) on %s returned %v, want %v (members %v) [op %s; before the op: %s]", why, r.show(v), t.name, got, want, members(*t.m), c.Op, what)
 			}
 			*t.m |= bit
 		} else {
 			want := *t.m&bit != 0
-			if got := t.s.Remove(r.k.mk(v)); got != want {
+			if got := t.s.Remove(x); got != want {
 				return fmt.Sprintf("%s: Remove(%s) on %s returned %v, want %v (members %v) [op %s; before the op: %s]", why, r.show(v), t.name, got, want, members(*t.m), c.Op, what)
 			}
 			*t.m &^= bit
@@ -605,7 +747,7 @@ func run[T comparable](c Case, k kit[T]) pbt.Outcome {
 		order = append(order, ts[:len(ts)-1]...)
 		for _, t := range order {
 			for v := 0; v <= maxCode; v++ {
-				if *t.m&(1<<uint(v)) == 0 {
+				if r.canon(v) == v && *t.m&(1<<uint(v)) == 0 {
 					if m := mutate(t, "add", v, "detachment probe"); m != "" {
 						return pbt.Fail("%s", m)
 					}
@@ -669,15 +811,15 @@ func genOperand(t *rapid.T, name string) Operand {
 
 // rapid favours the first entry of a SampledFrom list; SymDiff is the operation with the most moving parts
 var opKinds = []string{
-	"symdiff", "addset", "removeset", "intersect", "setdiff", "union", "cartesian", "clone", "range", "string",
-	"symdiff", "addset", "removeset", "intersect", "setdiff", "union", "cartesian",
+	"symdiff", "addset", "removeset", "intersect", "setdiff", "union", "cartesian", "clone", "range", "string", "nested", "cartesian2",
+	"symdiff", "addset", "removeset", "intersect", "setdiff", "union", "cartesian", "string",
 	"symdiff", "addset", "removeset", "intersect", "setdiff", "union",
 }
 
 var specRand = pbt.Register(&pbt.Spec[Case]{
-	Property: "C03", Name: "C03.rand", Rule: "rapid: histories of 0..40 steps per operand (three profiles: mixed, few observers, staged grow/observe/shrink/regrow), 8% same-object operands, 0..12 post-mutations; " + rule,
+	Property: "C03", Name: "C03.rand", Rule: "rapid: element type drawn from " + elemDoc + "; histories of 0..40 steps per operand (three profiles: mixed, few observers, staged grow/observe/shrink/regrow), 8% same-object operands, 0..12 post-mutations; " + rule,
 	Gen: func(t *rapid.T) Case {
-		c := Case{Elem: rapid.IntRange(0, 1).Draw(t, "elem")}
+		c := Case{Elem: rapid.IntRange(0, len(elemNames)-1).Draw(t, "elem")}
 		c.A = genOperand(t, "a")
 		c.B = genOperand(t, "b")
 		c.Op = rapid.SampledFrom(opKinds).Draw(t, "op")
